@@ -1014,7 +1014,9 @@ def _run(h, env):
         if route in ('ctor_cfg', 'ctor_cfg_early', 'ctor_deferred'):
             proto = connected_proto()
             config_obj = TorConfig(proto)
-            if route != 'ctor_cfg_early':
+            # (an invalid combination is expected to be refused by the constructor: the bootstrap is
+            # only pumped later, by _drive, in case the constructor lets it through)
+            if route != 'ctor_cfg_early' and not (route == 'ctor_deferred' and classify(cfg)[0] == 'invalid'):
                 pump(reactor, tors)
             if route == 'ctor_deferred':
                 config_d = defer.Deferred()
@@ -1034,6 +1036,8 @@ def _run(h, env):
             log_before = len(tor.log)
             eph = effective_ephemeral(cfg)
             auth = make_auth(cfg['auth'])
+            assert not (eph and auth is not None and cfg['single_hop']), \
+                'harness: Tor.create_authenticated_onion_endpoint cannot express single_hop'
             if eph and auth is None:
                 ep = t.create_onion_endpoint(pub, private_key=key, version=cfg['version'], single_hop=cfg['single_hop'])
             elif eph:
@@ -1586,12 +1590,19 @@ def make_history(route, cfg, fail, k, nonanon=None):
 
 
 class _quiet_gc(object):
-    """listens that are (legitimately) still pending when a case ends leave suspended inlineCallbacks
-    generators behind; when the collector closes them Python reports 'generator ignored GeneratorExit'
-    through sys.unraisablehook.  Collect them here, with that one message filtered."""
+    """Listens that are (legitimately) still pending when a case ends leave suspended inlineCallbacks
+    generators behind.  When the cyclic collector closes one, it runs on (Python reports 'generator
+    ignored GeneratorExit') into remove_event_listener -> queue_command -> log.msg; if the collector
+    happened to fire while this thread was already inside log.msg, that re-acquires Twisted's
+    non-reentrant log lock and the process deadlocks.  So: automatic collection is switched off for
+    the run and done explicitly *between* cases (collect()), where no library frame is active, with
+    that one unraisable message filtered."""
 
     def __enter__(self):
+        import gc
         import sys
+        self._was_enabled = gc.isenabled()
+        gc.disable()
         self._hook = hook = sys.unraisablehook
 
         def filtered(u):
@@ -1601,11 +1612,18 @@ class _quiet_gc(object):
         sys.unraisablehook = filtered
         return self
 
+    @staticmethod
+    def collect():
+        import gc
+        gc.collect()
+
     def __exit__(self, *exc):
         import gc
         import sys
         gc.collect()
         sys.unraisablehook = self._hook
+        if self._was_enabled:
+            gc.enable()
         return False
 
 
@@ -1626,6 +1644,8 @@ def _twin(tier, seed):
 
     def run(hist):
         v, info = run_case(hist)
+        if (counts['refused'] + counts['listened']) % 40 == 39:
+            _quiet_gc.collect()        # at a safe point: no library frame on the stack
         violations.extend(v)
         counts['listened' if info['listen_called'] else 'refused'] += 1
         distinct.add((hist['route'], cfg_sig(hist['cfg']), repr(sorted((hist['fail'] or {}).items())),
@@ -1716,12 +1736,16 @@ def _twin(tier, seed):
                 k += 1
     # 5. seeded random: any valid configuration, any route, any step, random ports and upload schedules
     valid = [c for c in cfgs if classify(c)[0] != 'invalid']
-    nrand = 150 if quick else 6000
+    nrand = 100 if quick else 6000
     for _ in range(nrand):
         cfg = dict(rnd.choice(valid))
         eph = effective_ephemeral(cfg)
-        route = rnd.choice(routes_ctor + (['tor_api'] if cfg['legacy_stealth'] is None and cfg['ephemeral'] is not None
-                                          and not (eph and cfg['ephemeral'] is not True) else []))
+        # Tor.create_*_endpoint cannot express: the legacy stealth_auth= keyword, an implicit ephemeral=,
+        # or single-hop on an authenticated service (create_authenticated_onion_endpoint has no such parameter)
+        api_ok = (cfg['legacy_stealth'] is None and cfg['ephemeral'] is not None
+                  and not (eph and cfg['ephemeral'] is not True)
+                  and not (cfg['auth'] is not None and cfg['single_hop']))
+        route = rnd.choice(routes_ctor + (['tor_api'] if api_ok else []))
         cfg['public_port'] = rnd.randint(1, 65535)
         if rnd.random() < 0.3:
             cfg['local_port'] = rnd.randint(1024, 65535)
